@@ -96,22 +96,19 @@ def build(ctx):
 
     def drs_branch():
         pb, c, rs, dr = rs_paths()
-        # every path of either function is decided by the single condition p >= p_b, on the same side
-        goal = []
+        pbv = tm.var("pb")
         for outs in (rs, dr):
             if len(outs) != 2:
                 raise sx.OutOfSubset(f"expected two paths, found {len(outs)}")
-            for o in outs:
-                goal.append(tm.lor(tm.iff(tm.land(*o.pc), c), tm.iff(tm.land(*o.pc), tm.lnot(c))))
+            v = paths_split_on(outs, c, {pb: pbv})
+            if v.status != be.PROVED:
+                return v
         # the 'zero derivative' path of dgor must be exactly the 'constant' path of the parent
         const_path = [o for o in rs if tm.diff(tm.toreal(o.value), p) is tm.rconst(0)]
-        zero_path = [o for o in dr if o.value is tm.rconst(0) or (tm.is_const(o.value) and tm.cval(o.value) == 0)]
+        zero_path = [o for o in dr if (tm.is_const(o.value) and tm.cval(o.value) == 0)]
         if len(const_path) != 1 or len(zero_path) != 1:
             raise sx.OutOfSubset("cannot identify the constant / zero branches")
-        goal.append(tm.iff(tm.land(*const_path[0].pc), tm.land(*zero_path[0].pc)))
-        pbv = tm.var("pb")
-        g = tm.subst(tm.land(*goal), {pb: pbv})
-        return g, [], {"p": p, "pb": pbv}
+        return be.prove_smt(tm.subst(tm.iff(tm.land(*const_path[0].pc), tm.land(*zero_path[0].pc)), {pb: pbv}), [], want={"p": p, "pb": pbv})
 
     def branch_replay(w):
         # concretise: p equal to the real bubble point of a sample oil (the only place the two tests can differ)
@@ -129,7 +126,7 @@ def build(ctx):
                             "observed": float(d), "required": float(true_d), "note": "right-hand derivative of the parent at the branch point"}
         return {"reproduced": False}
 
-    obs.append(smt_ob(ctx, "oil.drs_dp.branch", "parent and derivative switch branch on the same condition p >= p_b (derivative is 0 exactly where the parent is constant)", drs_branch, fs, branch_replay))
+    obs.append(Obligation("oil.drs_dp.branch", "parent and derivative switch branch on the same condition p >= p_b (derivative is 0 exactly where the parent is constant)", drs_branch, fs, "SMT", branch_replay))
 
     # ---- dBo/dRs
     def dbo():
@@ -199,11 +196,10 @@ def build(ctx):
         pb, c, outs = co_paths()
         if len(outs) != 2:
             raise sx.OutOfSubset(f"expected two paths, found {len(outs)}")
-        pbv = tm.var("pb")
-        goal = tm.land(*[tm.lor(tm.iff(tm.land(*o.pc), c), tm.iff(tm.land(*o.pc), tm.lnot(c))) for o in outs])
-        return tm.subst(goal, {pb: pbv}), [], {"p": p, "pb": pbv}
+        v = paths_split_on(outs, c, {pb: tm.var("pb")})
+        return v, None
 
-    obs.append(smt_ob(ctx, "oil.co_branch", "oil_compressibility_Standing switches between its two forms exactly at p >= p_b", co_branch, cofs))
+    obs.append(Obligation("oil.co_branch", "oil_compressibility_Standing switches between its two forms exactly at p >= p_b", lambda: co_branch()[0], cofs, "SMT"))
 
     # ---- canary: a deliberately false derivative identity generated from the real code must be refuted
     def canary():
